@@ -51,7 +51,7 @@ structure CtrlE where
 inductive BRepr
   | static                    -- STATIC_VTABLE (also `new_empty_with_ptr`)
   | owned (c : Nat)           -- OWNED_VTABLE
-  | prom (c : Option Nat)     -- PROMOTABLE_{EVEN,ODD}_VTABLE; none: KIND_VEC (owns its region), some c: promoted
+  | prom (vtOdd : Bool) (c : Option Nat)   -- PROMOTABLE_EVEN (vtOdd = false) / _ODD vtable; none: KIND_VEC (owns its region), some c: promoted
   | shared (c : Nat)          -- bytes.rs SHARED_VTABLE
   | sharedV (c : Nat)         -- bytes_mut.rs SHARED_VTABLE (frozen BytesMut)
   deriving Repr, DecidableEq, Inhabited
@@ -292,12 +292,22 @@ def regionOdd (r : Option Nat) : M Bool :=
     | .heap o => pure o
     | _ => pure false
 
+/-- Recover the buffer address from the tagged `data` word of a KIND_VEC promotable handle: the EVEN
+vtable clears the tag bit (`addr & !KIND_MASK`), the ODD vtable uses the word as it is.  Using the
+wrong one yields an address one byte off the allocation. -/
+def promDecode (vtOdd : Bool) (reg : Option Nat) : M Unit := do
+  let odd ← regionOdd reg
+  if odd = vtOdd then pure () else ub "promotable vtable does not match the buffer address parity"
+
 /-- `Bytes::from(Vec<u8>)` on a vec `(reg, len, cap)` -/
 def bytesFromVec (reg : Option Nat) (len cap : Nat) : M Handle :=
   if len = cap then
     -- into_boxed_slice (no realloc when len == cap) → From<Box<[u8]>>
     if len = 0 then pure (.bytes .static none 0 0)
-    else pure (.bytes (.prom none) reg 0 len)
+    else do
+      -- From<Box<[u8]>>: `if ptr as usize & 0x1 == 0 { EVEN } else { ODD }`
+      let odd ← regionOdd reg
+      pure (.bytes (.prom odd none) reg 0 len)
   else
     match reg with
     | none => ub "non-empty capacity without an allocation"
@@ -313,14 +323,15 @@ def bytesClone (i : Nat) : M Handle := do
   | .bytes (.owned c) reg off len => do incCtrl c; pure (.bytes (.owned c) reg off len)
   | .bytes (.shared c) reg off len => do incCtrl c; pure (.bytes (.shared c) reg off len)
   | .bytes (.sharedV c) reg off len => do incCtrl c; pure (.bytes (.sharedV c) reg off len)
-  | .bytes (.prom (some c)) reg off len => do incCtrl c; pure (.bytes (.shared c) reg off len)   -- shallow_clone_arc
-  | .bytes (.prom none) reg off len =>
-    -- shallow_clone_vec: cap = offset_from(ptr, buf) + len
+  | .bytes (.prom _ (some c)) reg off len => do incCtrl c; pure (.bytes (.shared c) reg off len)   -- shallow_clone_arc
+  | .bytes (.prom vt none) reg off len =>
+    -- shallow_clone_vec: buf = decode(data); cap = offset_from(ptr, buf) + len
     match reg with
     | none => ub "promotable handle without a buffer"
     | some r => do
+      promDecode vt reg
       let c ← newCtrl (.sharedB r (off + len)) 2
-      setHandle i (.bytes (.prom (some c)) reg off len)
+      setHandle i (.bytes (.prom vt (some c)) reg off len)
       pure (.bytes (.shared c) reg off len)
   | _ => panic
 
@@ -331,12 +342,12 @@ def bytesDrop (h : Handle) : M Unit :=
   | .bytes (.owned c) _ _ _ => releaseCtrl c
   | .bytes (.shared c) _ _ _ => releaseCtrl c
   | .bytes (.sharedV c) _ _ _ => releaseCtrl c
-  | .bytes (.prom (some c)) _ _ _ => releaseCtrl c
-  | .bytes (.prom none) reg off len =>
+  | .bytes (.prom _ (some c)) _ _ _ => releaseCtrl c
+  | .bytes (.prom vt none) reg off len =>
     -- free_boxed_slice(buf, ptr, len): cap = offset_from(ptr, buf) + len
     match reg with
     | none => ub "promotable handle without a buffer"
-    | some r => freeRegion r (off + len)
+    | some r => do promDecode vt reg; freeRegion r (off + len)
   | _ => panic
 
 def bytesIsUnique (h : Handle) : M Bool :=
@@ -345,8 +356,8 @@ def bytesIsUnique (h : Handle) : M Bool :=
   | .bytes (.owned _) _ _ _ => pure false
   | .bytes (.shared c) _ _ _ => ctrlIsUnique c
   | .bytes (.sharedV c) _ _ _ => ctrlIsUnique c
-  | .bytes (.prom (some c)) _ _ _ => ctrlIsUnique c
-  | .bytes (.prom none) _ _ _ => pure true
+  | .bytes (.prom _ (some c)) _ _ _ => ctrlIsUnique c
+  | .bytes (.prom _ none) _ _ _ => pure true
   | _ => panic
 
 /-- `BytesMut::from_vec` -/
@@ -397,11 +408,12 @@ def bytesIntoVec (e : Env) (h : Handle) : M Handle :=
     let v ← toVecCopy e reg off len
     releaseCtrl c
     pure v
-  | .bytes (.prom none) reg off len => do
+  | .bytes (.prom vt none) reg off len => do
     -- promotable_to_vec: cap = off + len; ptr::copy(ptr, buf, len); Vec::from_raw_parts(buf, len, cap)
+    promDecode vt reg
     copyWithin reg off 0 len
     pure (.vec reg len (off + len))
-  | .bytes (.prom (some c)) reg off len | .bytes (.shared c) reg off len => do
+  | .bytes (.prom _ (some c)) reg off len | .bytes (.shared c) reg off len => do
     -- shared_to_vec_impl
     let u ← ctrlIsUnique c
     if u then do
@@ -444,10 +456,11 @@ def bytesIntoMut (cfg : Cfg) (e : Env) (h : Handle) : M Handle :=
     match v with
     | .vec r l cp => pure (mutFromVec r l cp)
     | _ => panic
-  | .bytes (.prom none) reg off len =>
+  | .bytes (.prom vt none) reg off len => do
     -- promotable_to_mut: Vec::from_raw_parts(buf, cap, cap); from_vec; advance_unchecked(off)
+    promDecode vt reg
     mutAdvanceUnchecked cfg (mutFromVec reg (off + len) (off + len)) off
-  | .bytes (.prom (some c)) reg off len | .bytes (.shared c) reg off len => do
+  | .bytes (.prom _ (some c)) reg off len | .bytes (.shared c) reg off len => do
     -- shared_to_mut_impl
     let u ← ctrlIsUnique c
     if u then do
@@ -702,7 +715,7 @@ def opTruncate (i n : Nat) : M Val := do
   | .bytes repr reg off len =>
     if n < len then
       match repr with
-      | .prom _ => do
+      | .prom _ _ => do
         -- drop(self.split_off(n))
         let o ← bytesSplitOffCore i n
         bytesDrop o
